@@ -174,6 +174,64 @@ def native_check(run):
         run.extra["native_paths"] = run.extra.get("native_paths", 0) + len(paths)
 
 
+def history_check(run):
+    """The native validity checks give the same verdict on a fresh composer and on a composer that
+    has already used the entry point with the honest standard generator (differential, all paths):
+    input = a representation of that generator with free auxiliary coordinates T1, T2 (and, in the
+    second family, a free projective scaling).  A path on which the two verdicts differ must be
+    infeasible; a model is replayed on the real composer."""
+    from checks.common import real_at
+    from checks.c07 import feas_obligation
+    for pat in ("t", "z"):
+        args = ["entry_history", pat]
+        sb = fw.run_driver(fw.SYM_BIN, ["component"] + args, run.seed,
+                           extra_env={"VERIF_FLIP_DEPTH": "10", "VERIF_MAX_PATHS": "400"})
+        ctx, nodes, paths = P.load(sb)
+        n_ok = 0
+        for k, p in enumerate(paths):
+            if p.panic is not None:
+                feas_obligation(run, f"history/{pat}/p{k}/panic-infeasible", ctx, p, {"panic": p.panic})
+                continue
+            outs = (p.layout.returned or {}).get("outcomes", []) if p.layout else []
+            by = {}
+            for o in outs:
+                by.setdefault(o["entry"], {})[o["history"]] = o["result"]
+            differ = [e for e, d in by.items() if d.get(False) != d.get(True)]
+            n_ok += any(d.get(False) == "Ok" for d in by.values())
+            if not differ:
+                continue
+
+            def rp(model, p=p, args=args, differ=differ):
+                names = sorted({v for a, b, _, _ in p.conds for v in smt.variables([a, b])})
+                env = {n: "%064x" % (model.get(smt.vname(n), 0) % R) for n in names}
+                r = real_at(["component"] + args, env, run.seed)["outputs"]["paths"][0]
+                outs_r = (r.get("layout") or {}).get("returned", {}).get("outcomes", [])
+                byr = {}
+                for o in outs_r:
+                    byr.setdefault(o["entry"], {})[o["history"]] = o["result"]
+                bad = [e for e, d in byr.items() if d.get(False) != d.get(True)]
+                return bool(bad), {"env": env, "driver": ["component"] + args, "real_outcomes": byr}
+            # feasibility of the path: conditions too large for the solver (the torsion test of a
+            # symbolic representation) are left out of the query -- a model of the remaining ones is
+            # only a candidate, and the replay on the real composer decides
+            q = xe.Query()
+            dropped = 0
+            for a, b, eq, forced in p.conds:
+                dd = a - b
+                if smt.has_inv([dd]):
+                    (dd, _), = smt.to_frac(ctx, [dd])
+                if len(smt.topo([dd])) > 1500:
+                    dropped += 1
+                    continue
+                f = q.zero(dd)
+                q.add(f if eq else f"(not {f})")
+            run.query(f"history/{pat}/p{k}/verdict-depends-on-history", q, "unsat", "path-feasibility",
+                      meta={"entries": differ, "outcomes": by, "dropped_huge_conditions": dropped}, replay=rp)
+        if n_ok == 0:
+            run.inconclusive.append(f"history/{pat}: no accepting path (vacuous)")
+        run.extra["history_paths"] = run.extra.get("history_paths", 0) + len(paths)
+
+
 def spec_accept(kind, asg):
     """three-valued evaluation of the spec predicate on a partial assignment"""
     def conj(vals):
@@ -197,6 +255,7 @@ def run(run):
     rowsem = load_rowsem(run)
     gates_check(run, rowsem)
     native_check(run)
+    history_check(run)
     run.add_functions(["Composer::assert_torsion_free_point", "Composer::assert_torsion_free_gates",
                        "Composer::add_point_gates", "Composer::append_point", "Composer::append_public_point",
                        "Composer::assert_equal_public_point", "Composer::append_constant_point",
